@@ -1,6 +1,6 @@
 """C03 - documents built from Markdown constructs parse to the tree they were built from (E2)."""
 import itertools
-from mc import core, trees, inlines
+from mc import core, trees, inlines, leafspell
 from models.cm_normalize import normalize_html
 
 ID = 'C03'
@@ -37,6 +37,7 @@ def jobs(tier):
         for s in range(16):
             js.append(('nesting', n, 3, 1, s, 16))
     js += inlines.jobs(b['inline'])
+    js += leafspell.jobs()
     return js
 
 
@@ -174,6 +175,33 @@ def run_job(job):
             r.outcome('nesting')
     elif kind == 'inline':
         inlines.run_job(r, job, render, normalize_html)
+    elif kind == 'leafspell':
+        for case in leafspell.cases_of_job(job):
+            r.states += 1
+            for ctx in leafspell.CONTEXTS:
+                x = leafspell.in_context(case, ctx)
+                if x is None:
+                    r.skip('leaf spelling not placed in this context (side condition of the writer)')
+                    continue
+                md, want, _ln = x
+                r.transitions += 1
+                try:
+                    got = render(md)
+                except core.EvalTimeout:
+                    r.fail(dict(markdown=md, expected_html=want), 'timeout')
+                    continue
+                except Exception as e:
+                    r.fail(dict(markdown=md, expected_html=want), core.exc_sig(e), repr(e)[:200])
+                    continue
+                r.validated += 1
+                if normalize_html(got) != normalize_html(want):
+                    kf = None
+                    if leafspell.delimiter_count_mismatch(case) and '<table>' in got:
+                        kf = 'KF-C03-table-delimiter-cell-count'
+                    r.fail(dict(markdown=md, expected_html=want, family=case[0], context=ctx, kf=kf), 'leaf-spelling-html-differs:' + case[0], kf=kf,
+                           expected=want, observed=got)
+            r.outcome('leaf:' + case[0])
+        r.sample(dict(space='leaf spellings', family=job[1]), 1)
     return r
 
 
